@@ -232,6 +232,10 @@ def steps_s(v, restarts=True):
         fd({"k": st.just("modify"), "i": idx, "attr": st.sampled_from(MULTI), "val": txt1}),
         fd({"k": st.just("delete"), "i": idx, "attr": st.sampled_from(MULTI), "index": st.integers(0, 2)}),
         fd({"k": st.just("locate")}),
+        fd({"k": st.just("read-target"), "i": idx,
+            "mode": st.sampled_from(["get", "wrapped", "wrapped+commit", "wrapped+get", "attrs+commit", "get+commit"])}),
+        fd({"k": st.just("read-target"), "i": idx,
+            "mode": st.sampled_from(["wrapped+commit", "wrapped+commit", "wrapped+get", "get+commit"])}),
         fd({"k": st.just("tick"), "n": st.integers(1, 100000)}),
     ]
     if v >= (2, 0):
